@@ -148,17 +148,18 @@ def _one(case):
     def _alarm(sig, frm):
         raise TimeoutError()
     try:
-        signal.signal(signal.SIGALRM, _alarm)
-        signal.alarm(CASE_TIMEOUT)
+        # processor time of this worker, not wall-clock time: a busy machine must not turn a finishing case into a timeout
+        signal.signal(signal.SIGVTALRM, _alarm)
+        signal.setitimer(signal.ITIMER_VIRTUAL, CASE_TIMEOUT)
     except Exception:
         pass
     try:
         return _one_inner(case)
     except TimeoutError:
-        return (case[0], case[1], case[2], 'TIMEOUT', 'analysis did not finish within %d s' % CASE_TIMEOUT)
+        return (case[0], case[1], case[2], 'TIMEOUT', 'analysis did not finish within %d s of processor time' % CASE_TIMEOUT)
     finally:
         try:
-            signal.alarm(0)
+            signal.setitimer(signal.ITIMER_VIRTUAL, 0)
         except Exception:
             pass
 
